@@ -271,6 +271,9 @@ type c19Sched struct {
 	Schedule []int  // thread id per step
 	Bumps    []bool // server content changes before the k-th server decision
 	Primed   bool   // cache starts with (E1, B1)
+	// ExpireBefore: the cache is configured with a lifetime (cacheTimeoutSeconds) and every entry in it expires just
+	// before this step of the schedule (-1: entries never expire)
+	ExpireBefore int
 }
 
 func c19Interleave(s c19Sched) []mc.Finding {
@@ -278,7 +281,11 @@ func c19Interleave(s c19Sched) []mc.Finding {
 	bad := func(key, format string, a ...interface{}) {
 		f = append(f, mc.Finding{Key: "C19:" + key, Msg: fmt.Sprintf("%+v: ", s) + fmt.Sprintf(format, a...)})
 	}
-	etagExec := &webhookExecutorEtag{etagCache: cache.New[eTagKey, *eTagEntry](0, 0)}
+	lifetime := time.Duration(0)
+	if s.ExpireBefore >= 0 {
+		lifetime = 25 * time.Millisecond // all other steps take microseconds; the expiring step sleeps past it
+	}
+	etagExec := &webhookExecutorEtag{etagCache: cache.New[eTagKey, *eTagEntry](lifetime, 0)}
 	key := etagExec.getKeyFromObject(c19Parent())
 	if s.Primed {
 		etagExec.etagCache.Set(key, &eTagEntry{Etag: "E1", Response: []byte(c19Body("1"))})
@@ -325,7 +332,10 @@ func c19Interleave(s c19Sched) []mc.Finding {
 		}()
 	}
 	done := make([]bool, s.Threads)
-	for _, id := range s.Schedule {
+	for step, id := range s.Schedule {
+		if step == s.ExpireBefore {
+			time.Sleep(40 * time.Millisecond)
+		}
 		t := threads[id]
 		if done[id] {
 			bad("schedule", "thread %d scheduled after completion", id)
@@ -436,12 +446,22 @@ func TestVerifC19(t *testing.T) {
 					for i := range bumps {
 						bumps[i] = bm&(1<<i) != 0
 					}
-					s := c19Sched{Threads: n, Schedule: sch, Bumps: bumps, Primed: primed == 1}
+					s := c19Sched{Threads: n, Schedule: sch, Bumps: bumps, Primed: primed == 1, ExpireBefore: -1}
 					r2.Case(s, fmt.Sprint(idx), func() []mc.Finding { return c19Interleave(s) })
 					r2.Outcome(c19Outcome)
 					r2.Transitions += len(sch)
 					if idx%499 == 0 {
 						r2.Sample(s)
+					}
+					if n == 2 {
+						// the same schedule with a cache lifetime: the entries expire before each step in turn
+						for eb := 1; eb < len(sch); eb++ {
+							se := s
+							se.ExpireBefore = eb
+							r2.Case(se, fmt.Sprintf("%d-expire%d", idx, eb), func() []mc.Finding { return c19Interleave(se) })
+							r2.Outcome("expiry:" + c19Outcome)
+							r2.Transitions += len(sch)
+						}
 					}
 				}
 			}
